@@ -629,6 +629,36 @@ func (s *PathState) addFact(t *Term, truth bool) bool {
 			a = Atom{Op: "false", A: t}
 		}
 	}
+	// comparison between two constants: decide it
+	if a.B != nil && a.A.Op == "const" && a.B.Op == "const" {
+		if x, ok := a.A.ConstInt(); ok {
+			if y, ok := a.B.ConstInt(); ok {
+				var r bool
+				switch a.Op {
+				case "==":
+					r = x == y
+				case "!=":
+					r = x != y
+				case "<":
+					r = x < y
+				case "<=":
+					r = x <= y
+				case ">":
+					r = x > y
+				case ">=":
+					r = x >= y
+				default:
+					r = true
+				}
+				return r
+			}
+		}
+		if a.Op == "==" || a.Op == "!=" {
+			if !a.A.Folded && !a.B.Folded {
+				return (a.A.K == a.B.K) == (a.Op == "==")
+			}
+		}
+	}
 	// boolean compared with constant -> truth atom
 	if (a.Op == "==" || a.Op == "!=") && a.B != nil && a.B.Op == "const" && (a.B.Aux == "true" || a.B.Aux == "false") {
 		tv := (a.B.Aux == "true") == (a.Op == "==")
